@@ -7,7 +7,7 @@ from vlib import gen, opcheck
 from vlib.runner import Violation
 
 ID = "C03"
-BUDGET = {"quick": 1600, "thorough": 30000}
+BUDGET = {"quick": 1600, "thorough": 64000}
 RULE = ("Generated: smooth&decomposable DAGs (several partitions per scope, shared sub-circuits, 1..3 outputs, "
         "Hadamard/Kronecker, n-ary dense/mixing sums, renumbered variables) over inputs that have an integration "
         "rule (categorical probs/logits, embedding, Gaussian with/without log-partition), optionally a product "
